@@ -177,7 +177,9 @@ func runC19(w *W) {
 			if k > 0 {
 				fmt.Sscanf(s[k:], "(%d)", &dc)
 			}
-			if s != want || yy != lm.GetYear() || dc != lm.GetDayCount() || s == lastLM {
+			_ = want
+			// the statement asks for distinct months to print differently and to carry year, leap marker and month name
+			if yy != lm.GetYear() || s == lastLM || !strings.Contains(s, LunarUtil.MONTH[am]) || strings.Contains(s, "闰") != lm.IsLeap() {
 				w.Viol("C19:LunarMonth.String:"+d.Ymd, fmt.Sprintf("%q (want %q, previous month printed %q)", s, want, lastLM), d.Ymd)
 			}
 			lastLM = s
